@@ -593,7 +593,7 @@ fn sc_fixed_tx(max_ops: usize) -> impl Fn(&mut Ctx) + Sync {
     move |ctx: &mut Ctx| {
         let which = ctx.choose_free(5);
         // free choices first: they shard the exploration evenly over the workers
-        let load = ctx.choose_free(3);
+        let load = ctx.choose_free(4);
         let n_ops = ctx.choose_free(max_ops + 1);
         let ops: Vec<Op> = (0..n_ops).map(|_| OPS[ctx.choose_free(OPS.len())]).collect();
         let base = base_tx(which);
@@ -614,6 +614,8 @@ fn sc_fixed_tx(max_ops: usize) -> impl Fn(&mut Ctx) + Sync {
         let loaded = guard(|| match load {
             0 => FixedTransaction::from_bytes(e.clone()).map_err(|x| format!("{:?}", x)),
             1 => FixedTransaction::from_hex(&hx(&e)).map_err(|x| format!("{:?}", x)),
+            // only the body bytes: empty witness set, valid, no auxiliary data
+            3 => FixedTransaction::new_from_body_bytes(&m.body).map_err(|x| format!("{:?}", x)),
             _ => {
                 let ws = top[1].span(&e);
                 match &m.aux {
@@ -629,6 +631,12 @@ fn sc_fixed_tx(max_ops: usize) -> impl Fn(&mut Ctx) + Sync {
         };
         ctx.compared();
         ctx.hit("decoder-accepts");
+        if load == 3 {
+            m.aux = None;
+            m.is_valid = true;
+            m.ws.clear();
+            ctx.hit("loaded-from-body-bytes-only");
+        }
         if applied.is_empty() {
             ctx.hit("accepted:canonical-base");
         }
@@ -925,11 +933,12 @@ pub fn scenario(name: &str, tier: Tier) -> Option<BoxedScenario> {
 
 pub fn run(tier: Tier, seed: u64) -> i32 {
     let mut rep = Report::new(P, tier, seed);
-    rep.rule = "fixed_tx: 5 base transactions (the pre-Alonzo 3-element layout with metadata; minimal; full Conway body + all 8 witness fields + tag-259 auxiliary data, sets tagged; the same untagged with is_valid=false; legacy array redeemers + Shelley metadata, witness keys out of order) as refcbor trees x every tree with <= B encoding deviations (menu per node: each wider head, indefinite container, string in 1 / 2 chunks / with an empty first chunk, adjacent map entries swapped, map entry repeated, array element repeated, set tag dropped / added) x load path {from_bytes, from_hex, new/new_with_auxiliary from the cut-out parts} x every history of <= L operations over {add_vkey_witness new x2 / already present, sign_and_add_vkey_signature, add_bootstrap_witness new / present, sign icarus, sign daedalus, set_body, set_auxiliary_data, set_is_valid, set_witness_set}. After load and after every operation: raw_body, raw_auxiliary_data, transaction_hash, and in to_bytes the body span, the auxiliary span, is_valid and every untouched witness field's value span are the input's bytes (or the setter's argument); a touched field holds the old elements then the new ones once each; signatures added by the sign helpers verify (cryptoxide) over Blake2b-256 of the current raw body; the output reloads to itself. datum: 7 base datums x <= B deviations x 7 containers (stand-alone + from_hex, PlutusList definite/indefinite, witness set, redeemer, inline datum of an output, plain Transaction): the datum's bytes come back verbatim and hash_plutus_data == Blake2b-256(input). block: the two rich bodies x <= B deviations inside a block: FixedBlock/FixedTransactionBody original_bytes and tx_hash.".into();
+    rep.rule = "fixed_tx: 5 base transactions (the pre-Alonzo 3-element layout with metadata; minimal; full Conway body + all 8 witness fields + tag-259 auxiliary data, sets tagged; the same untagged with is_valid=false; legacy array redeemers + Shelley metadata, witness keys out of order) as refcbor trees x every tree with <= B encoding deviations (menu per node: each wider head, indefinite container, string in 1 / 2 chunks / with an empty first chunk, adjacent map entries swapped, map entry repeated, array element repeated, set tag dropped / added) x load path {from_bytes, from_hex, new/new_with_auxiliary from the cut-out parts, new_from_body_bytes from the body span alone} x every history of <= L operations over {add_vkey_witness new x2 / already present, sign_and_add_vkey_signature, add_bootstrap_witness new / present, sign icarus, sign daedalus, set_body, set_auxiliary_data, set_is_valid, set_witness_set}. After load and after every operation: raw_body, raw_auxiliary_data, transaction_hash, and in to_bytes the body span, the auxiliary span, is_valid and every untouched witness field's value span are the input's bytes (or the setter's argument); a touched field holds the old elements then the new ones once each; signatures added by the sign helpers verify (cryptoxide) over Blake2b-256 of the current raw body; the output reloads to itself. datum: 7 base datums x <= B deviations x 7 containers (stand-alone + from_hex, PlutusList definite/indefinite, witness set, redeemer, inline datum of an output, plain Transaction): the datum's bytes come back verbatim and hash_plutus_data == Blake2b-256(input). block: the two rich bodies x <= B deviations inside a block: FixedBlock/FixedTransactionBody original_bytes and tx_hash.".into();
     rep.assume("only inputs the decoder accepts are judged (rejecting an encoding is C01/C02's subject); per deviation kind at least one accepted input is required (required_hits), so acceptance is not vacuous");
     rep.assume("the order of witness-set keys in the output and the encoding of a touched signature field are not constrained by the property");
     rep.trusted_base = vec!["harness/src/refcbor.rs (spans)".into(), "cryptoxide blake2b / ed25519".into()];
     rep.required_hits = vec![
+        "loaded-from-body-bytes-only",
         "decoder-accepts",
         "decoder-rejects",
         "accepted:canonical-base",
